@@ -93,9 +93,17 @@ def expected_toolbox(items: List[dict], module: str, ignore=(), boost=False) -> 
     res = {'files': {module + '_wrapper.cpp': 'cpp'}, 'classes': [], 'functions': {},
            'enums': [], 'n_ids': 0, 'all_classes': []}
 
+    enums_at = {}  # namespace path -> enums declared in any block of that namespace
+
+    def collect(scope, path):
+        for it in scope:
+            if it['k'] == 'ns':
+                collect(it['items'], path + (it['name'],))
+            elif it['k'] == 'pass' and isinstance(it['item'], M.Enum):
+                enums_at.setdefault(path, []).append(it['item'].name)
+    collect(items, ())
+
     def walk(scope, path):
-        ns_enums = [it['item'].name for it in scope
-                    if it['k'] == 'pass' and isinstance(it['item'], M.Enum)]
         for it in scope:
             k = it['k']
             if k == 'ns':
@@ -107,7 +115,7 @@ def expected_toolbox(items: List[dict], module: str, ignore=(), boost=False) -> 
                 if qual in ignore:
                     continue
                 c = dict(it)
-                c['ns_enums'] = ns_enums if cpath == path else []
+                c['ns_enums'] = enums_at.get(cpath, [])  # of the class's own C++ namespace
                 c['matlab'] = '.'.join(cpath + (it['name'],))
                 c['collector'] = ''.join(cpath) + it['name']
                 pk = matlab_pkg(cpath)
